@@ -61,6 +61,20 @@ theorem C25_lookup {fs : FS} {fuel : Nat} {main : Seg} {st : St}
   obtain ⟨s, hs, hd⟩ := hrt hq
   exact ⟨s, by rw [docResolve, ← specResolve_acyclic hac hch r]; exact hs, hd⟩
 
+/-- **Nothing is left out.**  For every file that was loaded the second pass recorded one entry
+per rule, in rule order — so `C25_lookup` / `C25_qualified` speak about every rule reference of
+every grammar file connected to the main file. -/
+theorem C25_all_rules {fs : FS} {fuel : Nat} {main : Seg} {st : St}
+    (h : loadMain fs fuel main = .ok st) (x : Ns) (hx : x ∈ st.opened) :
+    ∃ f, fs x = some f ∧ resRules st.resolved x = f.rules ∧
+      ∀ e ∈ st.resolved, e.ns = x → e.targets.length = e.rule.refs.length := by
+  obtain ⟨hinv, _, _⟩ := loadMain_inv h
+  obtain ⟨f, hf, hr⟩ := (loadMain_resInv h).done x (hinv.opened x hx) (by simp)
+  refine ⟨f, hf, hr, ?_⟩
+  intro e he _
+  obtain ⟨_, _, _, hall⟩ := hinv.resOK e he
+  exact hall.length
+
 /-- **Qualified names.**  A qualified reference `q.X` that resolved, resolved to a class that
 reports file `q` and name `X`, and file `q` defines `X` — whatever the import graph. -/
 theorem C25_qualified {fs : FS} {fuel : Nat} {main : Seg} {st : St}
